@@ -2,7 +2,7 @@
    Print Assumptions.  Model = Model/Kalman.v (the batched code over canonical rationals),
    specification = Spec/Kalman.v (per-feature textbook step). *)
 From Coq Require Import ZArith List Bool QArith Qcanon.
-From Centro Require Import Gen.ConstsC09 Model.Kalman Spec.Kalman Proofs.KalmanHist Proofs.KalmanAlg Proofs.KalmanRefine.
+From Centro Require Import Gen.ConstsC09 Model.Kalman Spec.Kalman Proofs.KalmanHist Proofs.KalmanAlg Proofs.KalmanGain Proofs.KalmanRefine.
 Import ListNotations.
 Open Scope nat_scope.
 
@@ -109,3 +109,23 @@ Print Assumptions C09_inv_n_correct_2.
 Theorem C09_init_cov_consts_ordered : (0 < SMALL_KALMAN_COV)%Qc /\ (SMALL_KALMAN_COV < LARGE_KALMAN_COV)%Qc.
 Proof. exact init_cov_consts_ordered. Qed.
 Print Assumptions C09_init_cov_consts_ordered.
+
+(* FULL for obs_len = 2.  The gain of the specification (hence, by kalman_refines, of the batched
+   code) solves the defining equation of the Kalman gain, K S = P H^T, whenever the innovation
+   covariance S = H P H^T + r is non-singular. *)
+Theorem C09_gain_equation : forall (H Pp r : mat) (a b c d : Qc),
+  innovation_cov H Pp r = [[a; b]; [c; d]] -> det1 [[a; b]; [c; d]] <> 0%Qc ->
+  Forall (fun row => length row = 2) (mmul Pp (mtrans H)) ->
+  mmul (gain H Pp r) (innovation_cov H Pp r) = mmul Pp (mtrans H).
+Proof. exact gain_equation. Qed.
+Print Assumptions C09_gain_equation.
+
+(* FULL (velocity model, constants and matrices regenerated from the source).  A new feature:
+   observed position, zero velocity, SMALL variance where observed and LARGE where hidden. *)
+Theorem C09_new_feature_velocity : forall z0 z1 : Qc,
+  feat_new (int_mat velocity_om) [z0; z1] =
+  ([z0; z1; 0%Qc; 0%Qc],
+   diag [SMALL_KALMAN_COV; SMALL_KALMAN_COV; LARGE_KALMAN_COV; LARGE_KALMAN_COV],
+   [1%Qc; 1%Qc; 1%Qc; 1%Qc], []).
+Proof. exact new_feature_velocity. Qed.
+Print Assumptions C09_new_feature_velocity.
